@@ -31,7 +31,7 @@ PROFILE = {
 }
 
 
-E2_PROFILE = {'max_pods': 2, 'max_racks': 3, 'weights': {'app': 14, 'rmsrv': 2, 'srv': 2, 'prio': 2, 'reparent': 3, 'cellev': 3, 'cellrm': 3, 'allocs': 2, 'restart': 2, 'resize': 2, 'bouncemove': 4, 'renew': 2, 'adv': 2, 'tickreboots': 1}, 'force': ['bouncemove'], 'lease': True, 'dense_limits': True}
+E2_PROFILE = {'max_pods': 2, 'max_racks': 3, 'weights': {'app': 14, 'rmsrv': 2, 'srv': 2, 'prio': 2, 'reparent': 3, 'cellev': 3, 'cellrm': 3, 'allocs': 2, 'restart': 2, 'resize': 2, 'bouncemove': 4, 'rebucket': 3, 'renew': 2, 'adv': 2, 'tickreboots': 1}, 'force': ['bouncemove', 'rebucket'], 'lease': True, 'dense_limits': True}
 
 
 def strategy(tier):
